@@ -1,8 +1,10 @@
 package node
 
 import (
+	"encoding/json"
 	"fmt"
 	"reflect"
+	"strconv"
 	"strings"
 
 	"github.com/freeconf/yang/meta"
@@ -277,6 +279,12 @@ func toBits(bitDefintions []*meta.Bit, v interface{}) (val.Bits, error) {
 		return result, nil
 	case string: // treat string as list of bit identifiers separated by space
 		return toBits(bitDefintions, strings.Split(x, " "))
+	case json.Number:
+		positions, err := strconv.ParseUint(string(x), 10, 64)
+		if err != nil {
+			return result, fmt.Errorf("could not coerce %v into bits", x)
+		}
+		return toBits(bitDefintions, positions)
 	case int:
 		return toBitsValueHandler(bitDefintions, x)
 	case uint:
